@@ -155,7 +155,7 @@ impl CallServiceFailed {
 
 #[derive(Debug, Clone, PartialEq, Eq, Serialize, Deserialize)]
 #[serde(rename_all = "snake_case")]
-#[derive(::rkyv::Archive, ::rkyv::Serialize, ::rkyv::Deserialize)]
+#[derive(::rkyv::Archive, ::rkyv::Serialize)]
 #[archive(check_bytes)]
 /// A proof of service result execution result.
 pub struct ServiceResultCidAggregate {
@@ -164,6 +164,21 @@ pub struct ServiceResultCidAggregate {
     pub argument_hash: Rc<str>,
     /// The tetraplet of the call result.
     pub tetraplet_cid: CID<SecurityTetraplet>,
+}
+
+// Not derived because of the shared string: see `shared_str_as_valid_utf8`.
+impl<D> ::rkyv::Deserialize<ServiceResultCidAggregate, D> for ArchivedServiceResultCidAggregate
+where
+    D: ::rkyv::Fallible + ?Sized + ::rkyv::de::SharedDeserializeRegistry,
+{
+    fn deserialize(&self, deserializer: &mut D) -> Result<ServiceResultCidAggregate, D::Error> {
+        let argument_hash: Rc<str> = ::rkyv::Deserialize::deserialize(&self.argument_hash, deserializer)?;
+        Ok(ServiceResultCidAggregate {
+            value_cid: ::rkyv::Deserialize::deserialize(&self.value_cid, deserializer)?,
+            argument_hash: air_interpreter_cid::shared_str_as_valid_utf8(argument_hash),
+            tetraplet_cid: ::rkyv::Deserialize::deserialize(&self.tetraplet_cid, deserializer)?,
+        })
+    }
 }
 
 /// Let's consider an example of trace that could be produces by the following fold:
